@@ -2,6 +2,7 @@
 import os
 
 from . import common, gen, observe
+from collections import Counter
 from .runner import Run, real_tuples, model_tuples, rows_text
 
 
@@ -366,6 +367,43 @@ PLANS.update({"C06": c06, "C10": c10, "C11": c11, "C17": c17})
 
 
 # ------------------------------------------------------------------------------------------
+def replay_full_docs(run, res, props_for, tag):
+    """replay Stages!FullDoc behaviours: the real library must give the same elements with the same class names,
+    the same canvas and the same legend rules (difference = drift); every observation becomes an event"""
+    behf = common.tla_json_strings(res["lines"], "REPLAY")
+    ftexts = ["".join(chr(c) for c in b["text"]) for b in behf]
+    fobs = observe.observe([{"input": t, "want_style": True} for t in ftexts], tag=tag)
+    for b, t, o in zip(behf, ftexts, fobs):
+        run.replayed += 1
+        doc = o["doc"]
+        style_flat = "\n".join("".join(chr(c) for c in ln) for ln in doc.get("style", []))
+        want_rules = "\n".join(".svgbob .%s{ %s }" % ("".join(map(chr, nm)), "".join(map(chr, dc))) for nm, dc in b["rules"])
+        builtin = {"solid", "broken", "nofill", "filled", "bg_filled"}
+        real_tagged = Counter()
+        for e in doc.get("elems", []):
+            extra = frozenset(c for c in e["cls"] if c not in builtin and "marked" not in c)
+            one = dict(doc)
+            one["elems"] = [e]
+            for tp in real_tuples(one):
+                real_tagged[(tp, extra)] += 1
+        model_tagged = Counter()
+        for tp, tg in zip(b["out"], b["tags"]):
+            for mt in model_tuples([tp]):
+                model_tagged[(mt, frozenset("".join(chr(c) for c in nm) for nm in tg))] += 1
+        same = (o["out"] == "return" and real_tagged == model_tagged and doc.get("w") == b["w"] * 1000
+                and doc.get("h") == b["h"] * 1000 and style_flat.endswith(want_rules)
+                and (want_rules != "" or style_flat.rstrip().endswith("}")))
+        if not same:
+            run.drift += 1
+            if len(run.drift_samples) < 5:
+                run.drift_samples.append({"input": t, "model": {"w": b["w"], "h": b["h"], "rules": want_rules, "out": b["out"], "tags": b["tags"]},
+                                          "real": {"w": doc.get("w"), "h": doc.get("h"), "style_tail": style_flat[-80:],
+                                                   "elems": [[e["k"], e["n"], e["cls"]] for e in doc.get("elems", [])][:12]}})
+        run.add_event({"props": props_for(t), "rows": o["rows"], "doc": {k: v for k, v in doc.items() if k != "style"}},
+                      {"input": t, "entry": "to_svg", "source": "full-document replay"})
+    return len(behf)
+
+
 def c12(tier):
     run = Run("C12", tier)
     n = 1200 if tier == "quick" else 80000
@@ -407,31 +445,16 @@ def c12(tier):
     # every text of a small grid over an alphabet with the double quote and a wide character, followed by one of
     # seven legend tails; replayed: same elements, same canvas, same rules
     cfgf = write_cfg("MC_Full", {"W": 2, "H": 1 if tier == "quick" else 2,
-                                 "Alphabet": tla_set([32, 34, 45, 124, 97, 19968])},
+                                 "Alphabet": tla_set([32, 34, 45, 124, 97, 19968, 123, 125])},
                      ["ModelC12x", "ModelC12", "LegendCut", "Emit"], init="Init")
     resf = run.model("MC_Full", cfgf, timeout=5000)
-    behf = common.tla_json_strings(resf["lines"], "REPLAY")
-    ftexts = ["".join(chr(c) for c in b["text"]) for b in behf]
-    fobs = observe.observe([{"input": t, "want_style": True} for t in ftexts], tag="C12F")
-    for b, t, o in zip(behf, ftexts, fobs):
-        run.replayed += 1
-        doc = o["doc"]
-        style_flat = "\n".join("".join(chr(c) for c in ln) for ln in doc.get("style", []))
-        want_rules = "\n".join(".svgbob .%s{ %s }" % ("".join(map(chr, nm)), "".join(map(chr, dc))) for nm, dc in b["rules"])
-        same = (o["out"] == "return" and real_tuples(doc) == model_tuples(b["out"]) and doc.get("w") == b["w"] * 1000
-                and doc.get("h") == b["h"] * 1000 and style_flat.endswith(want_rules)
-                and (want_rules != "" or style_flat.rstrip().endswith("}")))
-        if not same:
-            run.drift += 1
-            if len(run.drift_samples) < 5:
-                run.drift_samples.append({"input": t, "model": {"w": b["w"], "h": b["h"], "rules": want_rules, "out": b["out"]},
-                                          "real": {"w": doc.get("w"), "h": doc.get("h"), "style_tail": style_flat[-80:]}})
+    def props_for(t):
         # a "# Legend:" that does not start its line is outside the statements (the code cuts there, the
         # properties speak of a '# Legend:' line): such texts are compared with the model only
         midline = any("# Legend:" in ln and not ln.lstrip(" \t").startswith("# Legend:") for ln in t.split("\n"))
-        run.add_event({"props": [] if midline else ["C12", "C12x"], "rows": o["rows"], "doc": {k: v for k, v in doc.items() if k != "style"}},
-                      {"input": t, "entry": "to_svg", "source": "MC_Full"})
-    run.notes["full_documents_replayed"] = len(behf)
+        return [] if midline else ["C12", "C12x"]
+    nfull = replay_full_docs(run, resf, props_for, "C12F")
+    run.notes["full_documents_replayed"] = nfull
     run.validate()
     corpus = [t for t in gen.mixed_corpus(r, n)]
     extra = []
@@ -1176,6 +1199,12 @@ def c16(tier):
     r = common.rng("C16")
     cfg = simple_cfg("MC_C16", {"MaxW": 6, "MaxLen": 7}, ["FitSameAtEveryScale", "DeepestFirst"])
     run.model("MC_Enclose", cfg)
+    # the enclosure stage inside the whole-conversion model: every interior string over { } , a b blank in a box
+    # and in two nested boxes; replayed with class names compared
+    cfgt = simple_cfg("MC_C16t", {"N": 4 if tier == "quick" else 5, "Alphabet": tla_set([32, 123, 125, 44, 97, 98])},
+                      ["ExactTagStylesInnermost", "Emit"])
+    rest = run.model("MC_Tags", cfgt, timeout=5000)
+    run.notes["full_documents_replayed"] = replay_full_docs(run, rest, lambda t: [], "C16F")
     cases = []
     for i in range(n):
         art = r.choice(["", "ab", gen.box(r.randint(1, 6), 1), gen.random_grid(r, 6, 2, "-|+ab ", 0.5)])
